@@ -10,7 +10,7 @@ var engines = []engine{
 	},
 	{
 		Name: "kspk", Skip: "_gconc", TestPkg: "speaker", TestName: "TestVerifKspk", SimPkgs: kspkPkgs, Rules: "r1,r4", Subst: "harness/speaker_subst.json",
-		Harness:  []string{"speaker", "internal/layer2", "internal/k8s/controllers"},
+		Harness:  []string{"speaker", "internal/layer2", "internal/k8s/controllers", "internal/bgp/frr"},
 		StubTest: []string{"speaker"},
 	},
 	{
@@ -25,7 +25,7 @@ var engines = []engine{
 	},
 	{
 		Name: "gconcspk", TestPkg: "speaker", TestName: "TestVerifGconcSpk", SimPkgs: kspkPkgs, Rules: "r1,r2,r3,r4", Subst: "harness/speaker_subst.json", Race: true,
-		Harness:  []string{"speaker", "internal/layer2", "internal/k8s/controllers"},
+		Harness:  []string{"speaker", "internal/layer2", "internal/k8s/controllers", "internal/bgp/frr"},
 		StubTest: []string{"speaker"},
 	},
 	{
@@ -51,7 +51,7 @@ var gfrrPkgs = []string{"internal/bgp/frr"}
 
 var gnativePkgs = []string{"internal/bgp/native"}
 
-var kspkPkgs = []string{"speaker", "internal/layer2", "internal/config", "internal/k8s/controllers", "internal/k8s", "internal/k8s/epslices", "internal/k8s/nodes", "internal/bgp", "internal/bgp/community"}
+var kspkPkgs = []string{"speaker", "internal/layer2", "internal/config", "internal/k8s/controllers", "internal/k8s", "internal/k8s/epslices", "internal/k8s/nodes", "internal/bgp", "internal/bgp/community", "internal/bgp/frr", "internal/bgp/frrk8s"}
 
 var kspkComponents = map[string]string{
 	"speaker controller (SetBalancer/SetConfig/SetNode), layer2Controller, bgpController":        "real (map ranges rewritten to a chosen order)",
